@@ -353,8 +353,8 @@ def rep : Handler := fun args impl =>
   | _ => unmodelled
 
 /-- C05 / C09: encode, decode into a fresh value of the same kind (or through Parse), encode again -/
-def rtWith (viaParse : Bool) : Handler := fun args impl =>
-  match valueOf ("".intercalate args) with
+def rtFrom (viaParse : Bool) (src : Except String V) (impl : String) : Verdict :=
+  match src with
   | .error e => { model := e }
   | .ok v0 =>
     match kinds.lookup v0.kind with
@@ -394,6 +394,24 @@ def rtWith (viaParse : Bool) : Handler := fun args impl =>
       | .err => { model := "err1" }
       | .panic => { model := "panic", more := [("C05", "encoder panics")] }
       | .spin => { model := "spin" }
+
+def rtWith (viaParse : Bool) : Handler := fun args impl => rtFrom viaParse (valueOf ("".intercalate args)) impl
+
+/-- `rtw <hex backing> <len>`: round trip starting from the WIRE — the frame is parsed, and the parsed message must
+    then round-trip like any other value (encode, parse again, encode: same bytes, same size) -/
+def rtw : Handler := fun args impl =>
+  match args with
+  | [hx, ln] =>
+    match mkSlice hx ln with
+    | some s =>
+      (match parse (s.len + 1) s with
+       | .ok .nil => { model := "pnil0" }
+       | .ok v => rtFrom true (.ok v) impl
+       | .err => { model := "perr0" }
+       | .panic => { model := "panic" }
+       | .spin => { model := "spin" })
+    | none => unmodelled
+  | _ => unmodelled
 
 /-- C12: a parsed message does not change when its input buffer (whole backing array) is overwritten -/
 def scribble : Handler := fun args impl =>
@@ -602,7 +620,7 @@ def handlers : List (String × Handler) :=
       | kn :: _ :: ln :: _ => if kn.startsWith "p." ∧ (i = "panic" ∨ i = "spin") then { v with more := [("C08", s!"{kn} decoder on {ln} bytes: {i}")] } else v
       | _ => v),
    ("fn", fn), ("prog", prog), ("api", api), ("apix", apix), ("parse", parseH), ("sw", swH), ("pk", pkH), ("embed", embedH),
-   ("rep", rep), ("rtrip", rtWith false), ("rtparse", rtWith true), ("scribble", scribble),
+   ("rep", rep), ("rtrip", rtWith false), ("rtparse", rtWith true), ("rtw", rtw), ("scribble", scribble),
    -- literal values: the repeated-call oracle ("same answer every time") applies to any value whatsoever; the
    -- size-vs-bytes part belongs to C06 and is judged on API-built values only
    ("repx", fun a i => let v := rep a i; { v with more := v.more.filter (fun (_, d) => !d.startsWith "size ") }), ("rtx", fun a i => { (rtWith false a i) with more := [] })]
